@@ -113,7 +113,12 @@ def plan_listing(steps, R, P, faulty):
             suffix = R.choice(['.mos.xml', '.mos.xml', '.mos.xml', '.xml', '', '.mos.xml.bak', '.MOS.XML'])
             keys.append(name + suffix)
         prefix = R.choice(['lst/', 'lst/', 'lst', '', None, 'lst/dir/', 'nothing-here/'])
-        steps.append({'k': 'listing', 'keys': sorted(set(keys)), 'put_prefix': R.choice(['lst/', 'lst/', '']),
+        put_prefix = R.choice(['lst/', 'lst/', ''])
+        if keys and R.random() < 0.2:
+            # a prefix may be a whole key, or end anywhere inside one (also inside the suffix)
+            k = put_prefix + R.choice(keys)
+            prefix = k[:len(k) - R.choice([0, 0, 1, 4, 6])]
+        steps.append({'k': 'listing', 'keys': sorted(set(keys)), 'put_prefix': put_prefix,
                       'prefix': prefix, 'suffix': R.choice([None, None, '.xml', '.mos.xml', '']),
                       'page_size': R.choice([1, 1, 2, 3, 5, 7, 1000]),
                       'fault_page': (R.randint(0, 3) if faulty and R.random() < 0.15 else None),
